@@ -406,6 +406,40 @@ theorem insLoop_last (c : Cfg) (old : Nat) (gs : List (Option Int)) (a af : InsA
         · rw [hlast, h3]; simp [tickLast, h2]
         · rw [hfgi, h3]; simp [tickLast]
 
+/-- If the loop started with no generated event and ends with one, the static index of the
+first generating tuple lies among the rows that were inserted. -/
+theorem insLoop_gen_idx (c : Cfg) (gs : List (Option Int)) (a af : InsAcc) (e : Option Err)
+    (h : insLoop c gs a = (af, e)) (h0 : firstGen a.evs = none) (v : Int) (h1 : firstGen af.evs = some v) :
+    ∃ i, firstGenIdx gs = some i ∧ a.evs.length + i < af.evs.length := by
+  induction gs generalizing a with
+  | nil =>
+    simp only [insLoop, Prod.mk.injEq] at h
+    rw [← h.1, h0] at h1; cases h1
+  | cons g gs ih =>
+    simp only [insLoop] at h
+    split at h
+    · next a' e' hr =>
+      simp only [Prod.mk.injEq] at h
+      rw [← h.1, insRow_err c a a' g e' hr, h0] at h1; cases h1
+    · next a' hr =>
+      obtain ⟨w, ctr', gen, he, _, hev, _⟩ := insRow_ok c a a' g hr
+      have hflag := evalAuto_gen_flag c a.tbl.ctr g w ctr' gen he
+      obtain ⟨r, hr'⟩ := insLoop_evs c gs a' af e h
+      rw [firstGenIdx_cons]
+      cases hg : isGenGiven g with
+      | true =>
+        refine ⟨0, by simp, ?_⟩
+        rw [hr', hev]; simp
+      | false =>
+        rw [hg] at hflag
+        have h0' : firstGen a'.evs = none := by
+          rw [hev, firstGen_append_single, h0, hflag]; simp
+        obtain ⟨i, hi1, hi2⟩ := ih a' h h0'
+        refine ⟨i + 1, by simp [hi1], ?_⟩
+        rw [hev] at hi2
+        simp only [List.length_append, List.length_singleton] at hi2
+        omega
+
 /-- `first` is the value of the first event. -/
 theorem insLoop_first (c : Cfg) (gs : List (Option Int)) (a af : InsAcc) (e : Option Err)
     (h : insLoop c gs a = (af, e)) (hinv : a.first = a.evs.head?.map (·.v)) :
@@ -482,7 +516,7 @@ theorem step_good (c : Cfg) (s : St) (o : Op)
       · left; omega
   | trunc =>
     simp only [step]
-    exact ⟨by intro w hw; cases hw, rfl⟩
+    exact ⟨(by intro w hw; cases hw), rfl⟩
 
 theorem run_good (c : Cfg) (s : St) (h : List Op)
     (hinv : CtrInv c s.tbl.ctr s.log) (hg : goodLog s.log = true)
@@ -508,6 +542,7 @@ theorem facts_match :
     Gms.Generated.C20.setAutoIncrementBody = ["t.editedTable.data.autoIncVal = val", "return nil"] ∧
     Gms.Generated.C20.getNextGuards = ["cmp > 0 && insertVal != nil => set"] ∧
     Gms.Generated.C20.truncateCounterValues = ["0", "1"] ∧
+    Gms.Generated.C20.truncateSetsCounterTo = ["uint64(1)"] ∧
     Gms.Generated.C20.evalBranchConds = ["cmp < 0", "cmp == 0", "given == nil", "err == nil && inRange != sql.InRange"] ∧
     Gms.Generated.C20.updateLastInsertIdShape =
       ["if i.firstGeneratedAutoIncRowIdx < 0 return", "if i.firstGeneratedAutoIncRowIdx == 0 store",
@@ -667,7 +702,87 @@ theorem last_insert_id_failed_partial (c : Cfg) (s : St) (sess : Nat) (gs : List
     · -- a value was generated: then the flag is raised — contradiction
       exfalso
       apply hfl
-      -- the countdown reached zero, so firstGenIdx gs = some i with i < rows done
-      sorry
+      obtain ⟨i, hi1, hi2⟩ := insLoop_gen_idx c gs _ a (some e') hl rfl v h1
+      rw [hi1]
+      simp only [List.length_nil, Nat.zero_add] at hi2
+      simp [hi2]
+
+/-- **OK packet.** InsertID of a successful INSERT is the first generated value whenever the
+statement's first row is a generating one (NULL / DEFAULT / 0 / column omitted). -/
+theorem insert_id_partial (c : Cfg) (s : St) (sess : Nat) (g : Option Int) (gs : List (Option Int)) (n i : Nat)
+    (hg : isGenGiven g = true)
+    (h : (step c s (.ins sess (g :: gs))).2.1 = .ok n i) :
+    specInsertId ((step c s (.ins sess (g :: gs))).1.log.drop s.log.length) = some i := by
+  simp only [step] at h ⊢
+  split
+  · next a hl =>
+    rw [hl] at h
+    simp only [Res.ok.injEq] at h
+    simp only [List.drop_left]
+    have hf := insLoop_first c (g :: gs) _ a none hl rfl
+    simp only [insLoop] at hl
+    split at hl
+    · simp at hl
+    · next a' hr =>
+      obtain ⟨v, ctr', gen, he, _, hev, _⟩ := insRow_ok c _ a' g hr
+      have hflag := evalAuto_gen_flag c _ g v ctr' gen he
+      obtain ⟨r, hr'⟩ := insLoop_evs c gs a' a none hl
+      rw [hev] at hr'
+      simp only [List.nil_append, List.singleton_append] at hr'
+      rw [hflag, hg] at hr'
+      rw [hr'] at hf ⊢
+      simp only [List.head?_cons, Option.map_some] at hf
+      rw [hf] at h
+      simp only [Option.getD_some] at h
+      simp [specInsertId, firstGen, h.2]
+  · next a e hl => rw [hl] at h; simp at h
+
+/-
+Full statement (FALSE on the unchanged code): InsertID = first generated value for *every*
+successful INSERT that generated a value. `insertRowHandler` takes the auto column of the first
+row, generated or not.
+-/
+theorem finding_okpacket_first_row_explicit :
+    (step t8 St.init (.ins 0 [some 20, none])).2.1 = .ok 2 20 ∧
+    specInsertId ((step t8 St.init (.ins 0 [some 20, none])).1.log) = some 21 ∧
+    (step t8 St.init (.ins 0 [some 20, none])).2.2 = [Region.okpacket_first_row_explicit] := by
+  decide
+
+/-
+Full statement (FALSE on the unchanged code): a failed INSERT leaves LAST_INSERT_ID() alone.
+`updateLastInsertId` stores the value as soon as the generating row is inserted; DiscardChanges
+restores the table, not the session value.
+-/
+theorem finding_failed_insert_sets_last_insert_id :
+    let s1 := (step t8 St.init (.ins 0 [some 5])).1
+    s1.last 0 = 0 ∧ (step t8 s1 (.ins 0 [none, some 5])).2.1 = .err .dup ∧
+    (step t8 s1 (.ins 0 [none, some 5])).1.last 0 = 6 ∧
+    (step t8 s1 (.ins 0 [none, some 5])).2.2 = [Region.failed_insert_sets_last_insert_id] := by
+  decide
+
+/-- TRUNCATE starts a new lifetime: counter 1, empty log. -/
+theorem truncate_resets (c : Cfg) (s : St) :
+    (step c s .trunc).1.tbl.ctr = 1 ∧ (step c s .trunc).1.log = [] ∧ (step c s .trunc).1.tbl.rows = [] :=
+  ⟨rfl, rfl, rfl⟩
+
+/-! ### Non-vacuity -/
+
+/-- A region-free history with explicit, generated, negative, zero, failed and deleted rows,
+two sessions and a raising ALTER: no flag, and the log is what MySQL would produce. -/
+example :
+    (run t8 St.init [.ins 0 [none, some 5, none, some 3], .ins 1 [some 5], .del 1 100,
+                     .ins 1 [some 0, some (-2)], .alter 40, .ins 0 [none, none], .upd 40 90]).2 = [] ∧
+    (run t8 St.init [.ins 0 [none, some 5, none, some 3], .ins 1 [some 5], .del 1 100,
+                     .ins 1 [some 0, some (-2)], .alter 40, .ins 0 [none, none], .upd 40 90]).1.log
+      = [⟨1, true⟩, ⟨5, false⟩, ⟨6, true⟩, ⟨3, false⟩, ⟨7, true⟩, ⟨-2, false⟩, ⟨40, true⟩, ⟨41, true⟩] := by
+  decide
+
+/-- `saturation_errors` is not vacuous: TINYINT PK holding 127 with the counter at 127. -/
+example : (step t8 ⟨⟨127, [⟨127, 0⟩]⟩, fun _ => 0, [⟨127, false⟩], 1⟩ (.ins 0 [none])).2.1 = .err .dup := by
+  decide
+
+/-- `last_insert_id_correct`: first generated value of a mixed statement, other session untouched. -/
+example : (step t8 St.init (.ins 1 [some 9, none, none])).1.last 1 = 10 ∧
+    (step t8 St.init (.ins 1 [some 9, none, none])).1.last 0 = 0 := by decide
 
 end Gms.C20
